@@ -50,6 +50,8 @@ impl CancelToken {
 
     /// Check if the token is cancelled
     pub fn is_cancelled(&self) -> bool {
+        #[cfg(fidget_verif)]
+        verif_sched::point("cancel-poll");
         self.0.load(Ordering::Relaxed)
     }
 
@@ -76,5 +78,26 @@ impl CancelToken {
     pub unsafe fn from_raw(ptr: *const AtomicBool) -> Self {
         let a = unsafe { Arc::from_raw(ptr) };
         Self(a)
+    }
+}
+
+/// Verification hook: a process-wide callback invoked at schedule points (the start of every
+/// raster tile task and octree task, and every poll of a cancel token), so that a check can
+/// count them, inject yields, or cancel after exactly `k` polls.  No-op when unset.
+#[cfg(fidget_verif)]
+pub mod verif_sched {
+    use std::sync::RwLock;
+    type Hook = Box<dyn Fn(&'static str) + Send + Sync>;
+    static HOOK: RwLock<Option<Hook>> = RwLock::new(None);
+    /// Installs (or removes) the callback
+    pub fn set_hook(h: Option<Hook>) {
+        *HOOK.write().unwrap() = h;
+    }
+    /// A schedule point named `site`
+    #[inline]
+    pub fn point(site: &'static str) {
+        if let Some(h) = HOOK.read().unwrap().as_ref() {
+            h(site)
+        }
     }
 }
